@@ -115,7 +115,13 @@ public:
   {
     Eigen::Ref<const Eigen::Vector3<Scalar>> v = g_in.template segment<3>(0);
     Eigen::Ref<const Eigen::Vector3<Scalar>> p = g_in.template segment<3>(3);
+#ifdef PETTNI_SMOOTH_VERIF
+    // verification hook: keep the time coordinate in the scalar type so the header instantiates
+    // with a symbolic scalar (same value for float/double)
+    const Scalar t = g_in(6);
+#else
     const double t                             = g_in(6);
+#endif
 
     A_out.setZero();
 
